@@ -80,6 +80,24 @@ def parse_terse(out):
     return res
 
 
+def _tree_key(repo, g, n, tier, names):
+    """content hash of everything a group run depends on: the repository sources, the harness files, this runner"""
+    import hashlib
+    h = hashlib.sha256()
+    roots = [os.path.join(repo, "src"), os.path.join(VERIF, "kani")]
+    files = [os.path.join(repo, "Cargo.toml"), os.path.join(repo, "Cargo.lock"), os.path.abspath(__file__)]
+    for r in roots:
+        for d, _, fs in sorted(os.walk(r)):
+            for f in sorted(fs):
+                files.append(os.path.join(d, f))
+    for f in files:
+        if os.path.exists(f) and not f.endswith("groups.json"):
+            h.update(f.replace(repo, "<repo>").encode())
+            h.update(open(f, "rb").read())
+    h.update(("%s|%s|%s|%s" % (g, n, tier, ",".join(sorted(names)))).encode())
+    return h.hexdigest()[:24]
+
+
 def kani_cmd(features, extra):
     cmd = ["cargo", "kani", "--no-default-features"]
     if features:
@@ -116,8 +134,22 @@ def run_groups(prop, groups, tier, workdir, only_harness=None):
             extra += ["--harness", h["name"]]
         cmd = kani_cmd(G.get("features", "alloc"), extra)
         cmds.append("(cd %s && VERIF_KANI_N=%s CARGO_NET_OFFLINE=true %s)" % (repo, n, " ".join(cmd)))
-        rc, out, wall = _run(cmd, repo, env, G.get("timeout", {}).get(tier, 3000))
+        # Results of a group are reused between the checks of different properties ONLY when every input is
+        # byte-identical (sources of the repository, harness files, runner); VERIF_NOCACHE=1 disables the reuse.
+        cdir = os.path.join(vxlib.WORK, "kani", "cache")
+        os.makedirs(cdir, exist_ok=True)
+        key = _tree_key(repo, g, n, tier, [h["name"] for h in hs])
+        cfile = os.path.join(cdir, key + ".log")
+        cached = False
+        if os.path.exists(cfile) and not os.environ.get("VERIF_NOCACHE") and not only_harness:
+            out = open(cfile).read()
+            rc, wall, cached = 0, 0.0, True
+        else:
+            rc, out, wall = _run(cmd, repo, env, G.get("timeout", {}).get(tier, 3000))
+            if rc != -9 and "Checking harness" in out and not only_harness:
+                open(cfile, "w").write(out)
         open(os.path.join(workdir, "kani_%s.log" % g), "w").write(out)
+        cache_note = "reused (identical inputs, key %s)" % key if cached else "fresh run (key %s)" % key
         if rc == -9:
             infra.append("group %s: timeout" % g)
             continue
@@ -135,7 +167,7 @@ def run_groups(prop, groups, tier, workdir, only_harness=None):
             checks += max(r["checks"], 1)
             solver_s += r["time_s"]
             ev = {"harness": h["name"], "kind": h["kind"], "function": h.get("function"), "group": g, "N": n, "bounded": h.get("bounded", "<= %d nodes" % n),
-                  "checks": r["checks"], "failed": r["failed"], "covers": [r["covers_ok"], r["covers_total"]], "time_s": r["time_s"], "status": r["status"]}
+                  "checks": r["checks"], "failed": r["failed"], "covers": [r["covers_ok"], r["covers_total"]], "time_s": r["time_s"], "status": r["status"], "run": cache_note}
             harness_ev.append(ev)
             if r["covers_total"] and r["covers_ok"] != r["covers_total"]:
                 infra.append("harness %s: only %s of %s cover properties satisfied (vacuous pre-state?)" % (h["name"], r["covers_ok"], r["covers_total"]))
